@@ -268,11 +268,13 @@ def sweep_templates():
     return t
 
 
-def work_sweep(bins, branches, timestamps):
+def work_sweep(bins, branches, timestamps, hash_only=False):
     env = core.base_env(bins)
     bad = []
     n = 0
     tpls = sweep_templates()
+    if hash_only:
+        tpls = [t for t in tpls if "hash" in t]
     for i, b in enumerate(branches):
         ts = timestamps[i % len(timestamps)]
         for tp in tpls:
@@ -450,7 +452,11 @@ def run(ctx):
     names = list(c04.BRANCHES) + [c04.rand_branch(brng) for _ in range(40 if quick else 1500)]
     names = [b for b in names if "\x00" not in b]
     stamps = [0, 1, 1710511845, 2 ** 31, 2 ** 33, 253402300799, 253402300800, 2 ** 40, 2 ** 62, 2 ** 63 - 1]
-    for r in core.pmap(work_sweep, [(ctx.bins, p, stamps) for p in core.split_even(names, 16)]):
+    many = sorted(set(["release/%d" % i for i in range(60)] + ["feature/%d" % i for i in range(60)] + ["v%d" % i for i in range(40)] +
+                      ["".join(brng.choice("abcdefghijklmnopqrstuvwxyz0123456789-_/.") for _ in range(brng.randrange(1, 14))) for _ in range(140 if quick else 3000)]))
+    jobs = [(ctx.bins, p, stamps, False) for p in core.split_even(names, 16)] + [(ctx.bins, p, stamps, True) for p in core.split_even(many, 16)]
+    ctx.count("template_sweep_distinct_values", len(set(names)) + len(many))
+    for r in core.pmap(work_sweep, jobs):
         ctx.evaluations += r["n"]
         ctx.count("template_function_sweep_runs", r["n"])
         ctx.distinct_extra += r["n"]
